@@ -300,6 +300,10 @@ func (ot *objectTree) AddContentWithValidator(ctx context.Context, content Signa
 	added := []StorageChange{storageChange}
 	err = ot.storage.AddAll(ctx, added, ot.Heads(), ot.tree.root.Id)
 	if err != nil {
+		// the change is not stored: bring the in-memory tree back in line with storage
+		if _, rebuildErr := ot.rebuildFromStorage(nil, nil, nil); rebuildErr != nil {
+			log.Error("failed to rebuild after adding content to storage", zap.Strings("heads", ot.Heads()), zap.Error(rebuildErr))
+		}
 		return
 	}
 
